@@ -123,6 +123,11 @@ func (u *Unit) callStatic(fr *Frame, st *State, fn *ssa.Function, args []Val, po
 		u.lockOp(st, args, pos, false)
 		return nil
 	}
+	if key == "fmt.Sprintf" {
+		if v, ok := u.sprintfModel(st, args); ok {
+			return v
+		}
+	}
 	// synthetic wrappers ($bound, $thunk): unwrap when trivially possible
 	if fn.Synthetic != "" && strings.HasPrefix(fn.Synthetic, "bound method wrapper") {
 		// bound wrapper: FreeVars[0] is the receiver; cannot be reached through FnVal
@@ -291,6 +296,16 @@ func (u *Unit) applyContract(fr *Frame, st *State, ct *Contract, sig *types.Sign
 					assigned = true
 				}
 			}
+			scratch := false
+			for _, gi := range ct.GhostInits {
+				if id, ok := m.Expr.(*EIdent); ok && id.Name == gi.Var {
+					scratch = true
+				}
+			}
+			if scratch {
+				// scratch ghost state of the callee: havocked, outside the caller's frame
+				items = items[:len(items)-len(its)]
+			}
 			if !assigned {
 				havoc = append(havoc, its...)
 			}
@@ -379,14 +394,22 @@ func (u *Unit) applyContract(fr *Frame, st *State, ct *Contract, sig *types.Sign
 		var as []*Term
 		var sorts []Sort
 		okAll := true
-		for _, a := range args {
-			t, ok := a.(*Term)
-			if !ok {
+		var flat func(a Val)
+		flat = func(a Val) {
+			switch x := a.(type) {
+			case *Term:
+				as = append(as, x)
+				sorts = append(sorts, x.Sort)
+			case *StructVal:
+				for _, f := range x.Fields {
+					flat(f)
+				}
+			default:
 				okAll = false
-				break
 			}
-			as = append(as, t)
-			sorts = append(sorts, t.Sort)
+		}
+		for _, a := range args {
+			flat(a)
 		}
 		rsort, scalar := u.sortOf(rs.At(0).Type())
 		if okAll && scalar {
@@ -430,7 +453,11 @@ func (u *Unit) applyContract(fr *Frame, st *State, ct *Contract, sig *types.Sign
 
 // applyGhostSets performs the ghost assignments of a contract in st.
 func (u *Unit) applyGhostSets(ct *Contract, env *Env, st *State) {
-	for _, gs := range ct.GhostSets {
+	u.applyGhostAssigns(ct.GhostSets, env, st)
+}
+
+func (u *Unit) applyGhostAssigns(sets []GhostSet, env *Env, st *State) {
+	for _, gs := range sets {
 		g, ok := u.prog.specs.GhostVars[gs.Var]
 		if !ok {
 			unsupp("ghostset %s: not a ghost variable", gs.Var)
@@ -481,6 +508,13 @@ func (u *Unit) builtin(fr *Frame, st *State, name string, c *ssa.CallCommon, arg
 		return nil
 	case "print", "println", "close":
 		return nil
+	case "Slice":
+		// unsafe.Slice(ptr, n): a view of memory we do not model; only its length is known
+		n := u.toInt(args[1].(*Term))
+		r := u.ctx.FreshConst("unsafe_slice", SSlice)
+		u.assume(st, And(Eq(slen(r), n), Ge(soff(r), IntLit(0)), Ge(scap(r), n), Le(Add(soff(r), scap(r)), IntLit(9223372036854775807))))
+		u.note("unsafe.Slice: contents not modelled")
+		return r
 	case "ssa:deferstack":
 		return u.ctx.Const("deferstack", SPtr)
 	case "recover":
@@ -839,4 +873,87 @@ func (u *Unit) lockOp(st *State, args []Val, pos token.Pos, acquire bool) {
 	}
 	env := &Env{u: u, st: st, old: st, vars: map[string]envVar{"self": {or.base, selfT}}, pkgPath: li.PkgPath, fvOverride: map[string]freeVarInfo{}}
 	u.addObl(st, "lockinv/unlock", "lock invariant of "+shortName(namedKey(or.structT))+"."+or.field+" holds at Unlock: "+li.Clause.Src, pos, u.evalBoolF(env, st, li.Clause.Expr))
+}
+
+// sprintfModel: fmt.Sprintf with a constant format made of literal text, %% and
+// %s verbs only. When every operand is a string the result is the concatenation
+// (left-associated, as `a + b + c` is) of the pieces; otherwise nothing is said.
+func (u *Unit) sprintfModel(st *State, args []Val) (Val, bool) {
+	if len(args) != 2 {
+		return nil, false
+	}
+	ft, ok := args[0].(*Term)
+	if !ok {
+		return nil, false
+	}
+	format, ok := u.ctx.StrLitTable()[ft.S]
+	if !ok {
+		return nil, false
+	}
+	sl, ok := args[1].(*Term)
+	if !ok || sl.Sort != SSlice {
+		return nil, false
+	}
+	type piece struct {
+		lit string
+		arg int
+	}
+	var pieces []piece
+	lit := ""
+	nargs := 0
+	for i := 0; i < len(format); i++ {
+		if format[i] != '%' {
+			lit += string(format[i])
+			continue
+		}
+		if i+1 >= len(format) {
+			return nil, false
+		}
+		i++
+		switch format[i] {
+		case '%':
+			lit += "%"
+		case 's':
+			if lit != "" {
+				pieces = append(pieces, piece{lit: lit, arg: -1})
+				lit = ""
+			}
+			pieces = append(pieces, piece{arg: nargs})
+			nargs++
+		default:
+			return nil, false
+		}
+	}
+	if lit != "" {
+		pieces = append(pieces, piece{lit: lit, arg: -1})
+	}
+	if nargs == 0 || len(pieces) == 0 {
+		return nil, false
+	}
+	u.ifacePrelude()
+	strT := types.Typ[types.String]
+	tag := u.typeTag(strT)
+	unbox := u.ctx.Func("unbox!"+typeKey(strT), []Sort{SIface}, SStr)
+	var cat, catLen *Term
+	allStr := []*Term{Eq(slen(sl), IntLit(int64(nargs)))}
+	for _, pc := range pieces {
+		var t *Term
+		if pc.arg < 0 {
+			t = u.ctx.StrLit(pc.lit)
+		} else {
+			b := u.loadLoc(st, elemMapName(SIface), SIface, mkptr(sarr(sl), Eidx(soff(sl), IntLit(int64(pc.arg)))))
+			allStr = append(allStr, Eq(App(SInt, "itag", b), tag))
+			t = App(SStr, unbox, b)
+		}
+		if cat == nil {
+			cat, catLen = t, App(SInt, "strlen", t)
+		} else {
+			cat = App(SStr, "strcat", cat, t)
+			catLen = Add(catLen, App(SInt, "strlen", t))
+		}
+	}
+	r := u.ctx.FreshConst("sprintf", SStr)
+	u.assume(st, Ge(App(SInt, "strlen", r), IntLit(0)))
+	u.assume(st, Implies(And(allStr...), And(Eq(r, cat), Eq(App(SInt, "strlen", r), catLen))))
+	return r, true
 }
